@@ -310,7 +310,7 @@ fn replay_generic<E: Engine>(args: &[String], make: &(dyn Fn() -> Result<E, Stri
 
     // watchdog (C16): a script that does not finish is a hang inside the code under test (operations take
     // microseconds); report it and stop the process with exit code 4
-    let hang_secs: u64 = arg(args, "--hang-secs").and_then(|s| s.parse().ok()).unwrap_or(30);
+    let hang_secs: u64 = arg(args, "--hang-secs").and_then(|s| s.parse().ok()).unwrap_or(120);
     let progress: std::sync::Arc<parking_lot::Mutex<std::collections::HashMap<usize, (std::time::Instant, String)>>> =
         Default::default();
     {
